@@ -143,7 +143,7 @@ impl Prop for C18 {
         vec!["ratios are computed in f32 with the same expression as the documented formula; words are short, so the library's u32 scaling of ratios is injective".into()]
     }
     fn stages(tier: Tier) -> Vec<Stage<Case>> {
-        vec![Stage { name: "random", kind: StageKind::Random { strategy: strat, cases: tier.pick(300_000, 5_000_000) } }]
+        vec![Stage { name: "random", kind: StageKind::Random { strategy: strat, cases: tier.pick(1_000_000, 6_000_000) } }]
     }
     fn check(case: &Case, obs: &mut Obs) -> Verdict {
         check_case(case, obs)
